@@ -1,18 +1,102 @@
-(* Proofs/Sync.v — lemmas for property C20 (Synchronizer.run). *)
+(* Proofs/Sync.v — lemmas for property C20 (Synchronizer: construction, check(), report(), run(), run() again). *)
 From Coq Require Import ZArith List Bool Lia.
 From ScaredV Require Import Run.Compare Model.Sync.
 Import ListNotations.
 Local Open Scope nat_scope.
 
+(* ==================================================================== the writer *)
+Section WriterProofs.
+  Variable E : Type.
+  Implicit Types w : writer E.
+
+  (* the rows a write will find: those of the file once opened *)
+  Definition eff w : list (option E) := w_rows (w_open w).
+
+  Lemma ovw_open w : ovw (w_open w) = ovw w.
+  Proof. unfold w_open. destruct (opened w); reflexivity. Qed.
+
+  Lemma w_write_append w e :
+    w_write w (length (eff w)) e = ({| ovw := ovw w; opened := true; disk := Some (eff w ++ [Some e]) |}, true).
+  Proof.
+    unfold w_write. fold (eff w). rewrite Nat.ltb_irrefl. cbn [andb]. rewrite ovw_open.
+    unfold set_row. rewrite Nat.ltb_irrefl, Nat.sub_diag. reflexivity.
+  Qed.
+
+  Lemma w_write_refused w idx e :
+    idx < length (eff w) -> ovw w = false -> w_write w idx e = (w_open w, false).
+  Proof.
+    intros H Ho. unfold w_write. fold (eff w). apply Nat.ltb_lt in H. rewrite H, ovw_open, Ho. reflexivity.
+  Qed.
+
+  Lemma disk_open_blocked w : ovw w = false -> eff w <> [] -> disk (w_open w) = disk w.
+  Proof.
+    unfold eff, w_open, w_rows. intros Ho. destruct (opened w); [reflexivity|]. rewrite Ho. cbn.
+    destruct (disk w); [reflexivity|]. intros H. exfalso. apply H. reflexivity.
+  Qed.
+
+  Lemma eff_new old o :
+    eff (new_writer old o) = if o then [] else match old with Some r => map Some r | None => [] end.
+  Proof. unfold eff, w_open, new_writer, w_rows. cbn. destruct o; [reflexivity|]. destruct old; reflexivity. Qed.
+
+  Lemma eff_new_clean old o : blocking old o = false -> eff (new_writer old o) = [].
+  Proof.
+    rewrite eff_new. unfold blocking. destruct o; [reflexivity|]. cbn.
+    destruct old as [[|x r]|]; [reflexivity|discriminate|reflexivity].
+  Qed.
+
+  Lemma eff_new_blocking old o : blocking old o = true -> ovw (new_writer old o) = false /\ eff (new_writer old o) <> [].
+  Proof.
+    rewrite eff_new. unfold blocking. destruct o; [discriminate|]. cbn.
+    destruct old as [[|x r]|]; try discriminate. intros _. split; [reflexivity|discriminate].
+  Qed.
+
+  (* the writer after the rows [acc] were appended one by one ([] : never opened) *)
+  Definition wappend w (acc : list E) : writer E :=
+    match acc with
+    | [] => w
+    | _ => {| ovw := ovw w; opened := true; disk := Some (eff w ++ map Some acc) |}
+    end.
+
+  Lemma wappend_cons w e acc :
+    wappend {| ovw := ovw w; opened := true; disk := Some (eff w ++ [Some e]) |} acc = wappend w (e :: acc).
+  Proof.
+    destruct acc as [|a acc]; [reflexivity|].
+    unfold wappend. cbn [ovw]. f_equal. f_equal.
+    unfold eff at 1. unfold w_open. cbn [opened w_rows disk].
+    rewrite <- app_assoc. reflexivity.
+  Qed.
+
+  Lemma eff_wappend w acc : eff (wappend w acc) = eff w ++ map Some acc.
+  Proof. destruct acc as [|a acc]; [cbn; rewrite app_nil_r; reflexivity|]. reflexivity. Qed.
+
+  Lemma reader_wappend_clean old o acc :
+    blocking old o = false ->
+    w_reader (wappend (new_writer old o) acc)
+    = match acc with [] => option_map (map Some) old | _ => Some (map Some acc) end.
+  Proof.
+    intros Hb. destruct acc as [|a acc]; [reflexivity|].
+    unfold wappend, w_reader. cbn [disk]. rewrite (eff_new_clean _ _ Hb). reflexivity.
+  Qed.
+End WriterProofs.
+
+Arguments eff {E} w.
+Arguments wappend {E} w acc.
+
+(* ==================================================================== the object *)
 Section SyncProofs.
   Variables (M X D : Type).
   Variable f : nat -> M * X -> outcome D.
 
   Notation accepted_from := (accepted_from M X D f).
   Notation accepted := (accepted M X D f).
+  Notation rejected_prefix := (rejected_prefix M X D f).
   Notation step := (step M X D f).
   Notation loop := (loop M X D f).
   Notation run := (run M X D f).
+  Notation check := (check M X D f).
+  Notation exec_event := (exec_event M X D f).
+  Notation exec_history := (exec_history M X D f).
+  Notation after_history := (after_history M X D f).
   Notation sstate := (sstate M D).
 
   (* ---------------------------------------------------------------- the spec list, characterised without recursion *)
@@ -80,6 +164,12 @@ Section SyncProofs.
                 /\ length (accepted (firstn i input)) = j.
   Proof. unfold accepted. rewrite accepted_from_char. cbn. reflexivity. Qed.
 
+  Theorem accepted_from_char_thm input c j m d :
+    nth_error (accepted_from c input) j = Some (m, d) <->
+    exists i x, nth_error input i = Some (m, x) /\ f (c + i) (m, x) = Accept d
+                /\ length (accepted_from c (firstn i input)) = j.
+  Proof. apply accepted_from_char. Qed.
+
   Lemma accepted_from_none l : forall k,
     (forall i t d, f i t <> Accept d) -> accepted_from k l = [].
   Proof.
@@ -93,60 +183,200 @@ Section SyncProofs.
   Lemma log_of_cons a e acc : log_of a (e :: acc) = (a, e) :: log_of (S a) acc.
   Proof. reflexivity. Qed.
 
-  Lemma loop_spec input : forall (st : sstate) i,
-    synchronized st = length (writes st) ->
-    processed (loop st i input) = processed st + length input
-    /\ synchronized (loop st i input) = synchronized st + length (accepted_from i input)
-    /\ writes (loop st i input) = writes st ++ log_of (synchronized st) (accepted_from i input)
-    /\ (errs st = None <-> errs (loop st i input) = None).
+  Lemma none_iff_map (e : option errc) (g : errc -> errc) : e = None <-> option_map g e = None.
+  Proof. destruct e; cbn; split; congruence. Qed.
+
+  (* append mode: the next index (synchronized_counter) is the end of the file.  The loop never stops, and appends *)
+  Lemma loop_append input : forall (st : sstate),
+    synchronized st = length (eff (out st)) ->
+    exists st', loop st input = Go st'
+    /\ processed st' = processed st + length input
+    /\ synchronized st' = synchronized st + length (accepted_from (calls st) input)
+    /\ writes st' = writes st ++ log_of (synchronized st) (accepted_from (calls st) input)
+    /\ calls st' = calls st + length input
+    /\ (errs st = None <-> errs st' = None)
+    /\ out st' = wappend (out st) (accepted_from (calls st) input).
   Proof.
-    induction input as [|t input IH]; intros st i Hs; cbn [loop accepted_from length].
-    - cbn. rewrite !Nat.add_0_r, app_nil_r. tauto.
-    - unfold step. destruct (f i t) as [d| |] eqn:E.
-      + match goal with |- context [loop ?s _ _] => set (st1 := s) end.
-        assert (Hs1 : synchronized st1 = length (writes st1)).
-        { subst st1. cbn. rewrite app_length. cbn. lia. }
-        destruct (IH st1 (S i) Hs1) as (Hp & Hy & Hw & He).
-        rewrite Hp, Hy, Hw, <- He.
-        subst st1. cbn [processed synchronized writes errs].
-        cbn [length]. rewrite log_of_cons.
-        replace (S (synchronized st) - 1) with (synchronized st) by lia.
-        rewrite <- app_assoc. cbn [app].
-        repeat split; try lia; try tauto.
-      + match goal with |- context [loop ?s _ _] => set (st1 := s) end.
-        assert (Hs1 : synchronized st1 = length (writes st1)) by (subst st1; cbn; exact Hs).
-        destruct (IH st1 (S i) Hs1) as (Hp & Hy & Hw & He).
-        rewrite Hp, Hy, Hw, <- He.
-        subst st1. cbn [processed synchronized writes errs].
-        repeat split; try lia.
-        * intros H. rewrite H. reflexivity.
-        * intros H. destruct (errs st); [discriminate|reflexivity].
-      + match goal with |- context [loop ?s _ _] => set (st1 := s) end.
-        assert (Hs1 : synchronized st1 = length (writes st1)) by (subst st1; cbn; exact Hs).
-        destruct (IH st1 (S i) Hs1) as (Hp & Hy & Hw & He).
-        rewrite Hp, Hy, Hw, <- He.
-        subst st1. cbn [processed synchronized writes errs].
-        repeat split; try lia.
-        * intros H. rewrite H. reflexivity.
-        * intros H. destruct (errs st); [discriminate|reflexivity].
+    induction input as [|t input IH]; intros st Hs; cbn [loop accepted_from length].
+    - exists st. cbn [wappend log_of length seq combine]. rewrite !Nat.add_0_r, app_nil_r. tauto.
+    - unfold step. destruct (f (calls st) t) as [d| |] eqn:E.
+      + replace (S (synchronized st) - 1) with (length (eff (out st))) by lia.
+        rewrite w_write_append. cbn [snd fst].
+        match goal with |- context [loop ?s input] => set (st1 := s) end.
+        assert (Hs1 : synchronized st1 = length (eff (out st1))).
+        { subst st1. cbn [synchronized out]. unfold eff at 1, w_open. cbn [opened w_rows disk].
+          rewrite app_length. cbn. lia. }
+        destruct (IH st1 Hs1) as (st' & Hl & Hp & Hy & Hw & Hc & He & Ho).
+        exists st'. split; [exact Hl|].
+        rewrite Hp, Hy, Hw, Hc, <- He, Ho. subst st1. cbn [processed synchronized writes errs calls out length].
+        rewrite log_of_cons, wappend_cons, <- app_assoc. cbn [app].
+        rewrite <- Hs. repeat split; try lia; try tauto.
+      + match goal with |- context [loop ?s input] => set (st1 := s) end.
+        assert (Hs1 : synchronized st1 = length (eff (out st1))) by (subst st1; exact Hs).
+        destruct (IH st1 Hs1) as (st' & Hl & Hp & Hy & Hw & Hc & He & Ho).
+        exists st'. split; [exact Hl|].
+        rewrite Hp, Hy, Hw, Hc, <- He, Ho. subst st1. cbn [processed synchronized writes errs calls out].
+        rewrite <- none_iff_map. repeat split; try lia; try tauto.
+      + match goal with |- context [loop ?s input] => set (st1 := s) end.
+        assert (Hs1 : synchronized st1 = length (eff (out st1))) by (subst st1; exact Hs).
+        destruct (IH st1 Hs1) as (st' & Hl & Hp & Hy & Hw & Hc & He & Ho).
+        exists st'. split; [exact Hl|].
+        rewrite Hp, Hy, Hw, Hc, <- He, Ho. subst st1. cbn [processed synchronized writes errs calls out].
+        rewrite <- none_iff_map. repeat split; try lia; try tauto.
   Qed.
 
-  Lemma run_fresh input st' :
-    run fresh input = Some st' ->
-    processed st' = length input
-    /\ synchronized st' = length (accepted input)
-    /\ writes st' = log_of 0 (accepted input)
-    /\ errs st' <> None.
+  (* nothing accepted: nothing but the processed counter (and the error counter) moves, whatever the writer is *)
+  Lemma loop_all_rejected input : forall (st : sstate),
+    accepted_from (calls st) input = [] ->
+    exists st', loop st input = Go st'
+    /\ processed st' = processed st + length input
+    /\ synchronized st' = synchronized st
+    /\ writes st' = writes st
+    /\ calls st' = calls st + length input
+    /\ (errs st = None <-> errs st' = None)
+    /\ out st' = out st.
   Proof.
-    unfold run. cbn. intros H. injection H as <-.
-    match goal with |- context [loop ?s _ _] => set (st0 := s) end.
-    destruct (loop_spec input st0 0 eq_refl) as (Hp & Hy & Hw & He).
-    cbn in *. repeat split; try assumption.
-    intros H. apply He in H. discriminate.
+    induction input as [|t input IH]; intros st Ha; cbn [loop length].
+    - exists st. rewrite !Nat.add_0_r. tauto.
+    - cbn [accepted_from] in Ha. unfold step. destruct (f (calls st) t) as [d| |] eqn:E; [discriminate| |].
+      + match goal with |- context [loop ?s input] => set (st1 := s) end.
+        destruct (IH st1 Ha) as (st' & Hl & Hp & Hy & Hw & Hc & He & Ho).
+        exists st'. split; [exact Hl|].
+        rewrite Hp, Hy, Hw, Hc, <- He, Ho. subst st1. cbn [processed synchronized writes errs calls out].
+        rewrite <- none_iff_map. repeat split; try lia; try tauto.
+      + match goal with |- context [loop ?s input] => set (st1 := s) end.
+        destruct (IH st1 Ha) as (st' & Hl & Hp & Hy & Hw & Hc & He & Ho).
+        exists st'. split; [exact Hl|].
+        rewrite Hp, Hy, Hw, Hc, <- He, Ho. subst st1. cbn [processed synchronized writes errs calls out].
+        rewrite <- none_iff_map. repeat split; try lia; try tauto.
   Qed.
 
-  Lemma run_fresh_defined input : exists st', run fresh input = Some st'.
-  Proof. unfold run. cbn. eexists. reflexivity. Qed.
+  (* blocked: the next index exists in the file and overwriting is disabled.  The first accepted trace stops run() *)
+  Lemma loop_blocked input : forall (st : sstate),
+    synchronized st < length (eff (out st)) -> ovw (out st) = false ->
+    accepted_from (calls st) input <> [] ->
+    exists st', loop st input = Stop st'
+    /\ processed st' = processed st + S (rejected_prefix (calls st) input)
+    /\ synchronized st' = S (synchronized st)
+    /\ writes st' = writes st
+    /\ calls st' = calls st + S (rejected_prefix (calls st) input)
+    /\ (errs st = None <-> errs st' = None)
+    /\ out st' = w_open (out st).
+  Proof.
+    induction input as [|t input IH]; intros st Hs Ho Ha; cbn [loop]; [exfalso; apply Ha; reflexivity|].
+    cbn [accepted_from rejected_prefix] in *. unfold step. destruct (f (calls st) t) as [d| |] eqn:E.
+    - rewrite w_write_refused by (try lia; exact Ho). cbn [snd fst].
+      eexists. split; [reflexivity|]. cbn [processed synchronized writes errs calls out].
+      repeat split; try lia; try tauto.
+    - match goal with |- context [loop ?s input] => set (st1 := s) end.
+      destruct (IH st1 Hs Ho Ha) as (st' & Hl & Hp & Hy & Hw & Hc & He & Hout).
+      exists st'. split; [exact Hl|].
+      rewrite Hp, Hy, Hw, Hc, <- He, Hout. subst st1. cbn [processed synchronized writes errs calls out].
+      rewrite <- none_iff_map. repeat split; try lia; try tauto.
+    - match goal with |- context [loop ?s input] => set (st1 := s) end.
+      destruct (IH st1 Hs Ho Ha) as (st' & Hl & Hp & Hy & Hw & Hc & He & Hout).
+      exists st'. split; [exact Hl|].
+      rewrite Hp, Hy, Hw, Hc, <- He, Hout. subst st1. cbn [processed synchronized writes errs calls out].
+      rewrite <- none_iff_map. repeat split; try lia; try tauto.
+  Qed.
+
+  Lemma rejected_prefix_lt input : forall i, accepted_from i input <> [] -> rejected_prefix i input < length input.
+  Proof.
+    induction input as [|t input IH]; intros i Ha; cbn in *; [exfalso; apply Ha; reflexivity|].
+    destruct (f i t); [lia| |]; specialize (IH (S i) Ha); lia.
+  Qed.
+
+  (* the guard: once armed it stays armed *)
+  Lemma loop_errs input : forall (st : sstate),
+    errs st <> None -> match loop st input with Go s => errs s <> None | Stop s => errs s <> None end.
+  Proof.
+    induction input as [|t input IH]; intros st He; cbn [loop]; [exact He|].
+    unfold step. destruct (f (calls st) t) as [d| |].
+    - destruct (snd (w_write (out st) (S (synchronized st) - 1) (fst t, d))).
+      + apply IH. exact He.
+      + exact He.
+    - apply IH. cbn [errs]. destruct (errs st); [discriminate|congruence].
+    - apply IH. cbn [errs]. destruct (errs st); [discriminate|congruence].
+  Qed.
+
+  Lemma loop_app l1 l2 : forall st,
+    loop st (l1 ++ l2) = match loop st l1 with Go s => loop s l2 | Stop s => Stop s end.
+  Proof.
+    induction l1 as [|t l1 IH]; intros st; cbn [app loop]; [reflexivity|].
+    destruct (step st t) as [s|s]; [apply IH|reflexivity].
+  Qed.
+
+  (* ---------------------------------------------------------------- run() on an object nothing has happened to *)
+  (* [pristine st old o]: counters 0, nothing written, guard not armed, the writer as built over the file [old];
+     only the ghost call counter is free *)
+  Definition pristine (st : sstate) (old : option (list (M * D))) (o : bool) : Prop :=
+    visible st = visible (construct old o).
+
+  Lemma pristine_fields st old o :
+    pristine st old o ->
+    processed st = 0 /\ synchronized st = 0 /\ writes st = [] /\ errs st = None /\ out st = new_writer old o.
+  Proof. unfold pristine, visible. cbn. intros H. injection H as -> -> -> -> ->. auto. Qed.
+
+  Lemma pristine_construct old o : pristine (construct old o) old o.
+  Proof. reflexivity. Qed.
+
+  Lemma run_clean st old o input :
+    pristine st old o -> blocking old o = false ->
+    exists st', run st input = RunDone st'
+    /\ processed st' = length input
+    /\ synchronized st' = length (accepted_from (calls st) input)
+    /\ writes st' = log_of 0 (accepted_from (calls st) input)
+    /\ calls st' = calls st + length input
+    /\ errs st' <> None
+    /\ out st' = wappend (new_writer old o) (accepted_from (calls st) input).
+  Proof.
+    intros Hp Hb. destruct (pristine_fields _ _ _ Hp) as (H1 & H2 & H3 & H4 & H5).
+    unfold run. rewrite H4.
+    assert (Hs : synchronized (arm st) = length (eff (out (arm st)))).
+    { cbn [arm synchronized out]. rewrite H2, H5, (eff_new_clean _ _ _ Hb). reflexivity. }
+    destruct (loop_append input (arm st) Hs) as (st' & Hl & Hpp & Hy & Hw & Hc & He & Ho).
+    exists st'. rewrite Hl. split; [reflexivity|].
+    cbn [arm processed synchronized writes errs calls out] in *.
+    rewrite Hpp, Hy, Hw, Hc, Ho, H1, H2, H3, H5. cbn [app plus].
+    repeat split; try reflexivity. intros H. apply He in H. discriminate.
+  Qed.
+
+  Lemma run_blocked_none st old o input :
+    pristine st old o -> accepted_from (calls st) input = [] ->
+    exists st', run st input = RunDone st'
+    /\ processed st' = length input /\ synchronized st' = 0 /\ writes st' = []
+    /\ calls st' = calls st + length input /\ errs st' <> None /\ out st' = new_writer old o.
+  Proof.
+    intros Hp Ha. destruct (pristine_fields _ _ _ Hp) as (H1 & H2 & H3 & H4 & H5).
+    unfold run. rewrite H4.
+    destruct (loop_all_rejected input (arm st) Ha) as (st' & Hl & Hpp & Hy & Hw & Hc & He & Ho).
+    exists st'. rewrite Hl. split; [reflexivity|].
+    cbn [arm processed synchronized writes errs calls out] in *.
+    rewrite Hpp, Hy, Hw, Hc, Ho, H1, H2, H3, H5.
+    repeat split; try reflexivity. intros H. apply He in H. discriminate.
+  Qed.
+
+  Lemma run_blocked_some st old o input :
+    pristine st old o -> blocking old o = true -> accepted_from (calls st) input <> [] ->
+    exists st', run st input = RunWriterError st'
+    /\ processed st' = S (rejected_prefix (calls st) input) /\ synchronized st' = 1 /\ writes st' = []
+    /\ calls st' = calls st + S (rejected_prefix (calls st) input) /\ errs st' <> None
+    /\ disk (out st') = option_map (map Some) old.
+  Proof.
+    intros Hp Hb Ha. destruct (pristine_fields _ _ _ Hp) as (H1 & H2 & H3 & H4 & H5).
+    destruct (eff_new_blocking _ _ _ Hb) as [Hov Hne].
+    unfold run. rewrite H4.
+    assert (Hs : synchronized (arm st) < length (eff (out (arm st)))).
+    { cbn [arm synchronized out]. rewrite H2, H5. destruct (eff (new_writer old o)); [congruence|cbn; lia]. }
+    assert (Ho' : ovw (out (arm st)) = false) by (cbn [arm out]; rewrite H5; exact Hov).
+    destruct (loop_blocked input (arm st) Hs Ho' Ha) as (st' & Hl & Hpp & Hy & Hw & Hc & He & Ho).
+    exists st'. rewrite Hl. split; [reflexivity|].
+    cbn [arm processed synchronized writes errs calls out] in *.
+    rewrite Hpp, Hy, Hw, Hc, Ho, H1, H2, H3, H5.
+    repeat split; try reflexivity.
+    - intros H. apply He in H. discriminate.
+    - rewrite (disk_open_blocked _ _ Hov Hne). reflexivity.
+  Qed.
 
   (* ---------------------------------------------------------------- the store *)
   Lemma store_get_log acc : forall a j,
@@ -184,15 +414,47 @@ Section SyncProofs.
   Lemma log_length a acc : length (log_of a acc) = length acc.
   Proof. unfold log_of. rewrite combine_length, seq_length. lia. Qed.
 
-  (* ---------------------------------------------------------------- the property theorems *)
-  Theorem sync_output_thm input st' :
-    run fresh input = Some st' ->
-    store_size (writes st') = length (accepted input)
-    /\ forall j, store_get (writes st') j = nth_error (accepted input) j.
+  (* ---------------------------------------------------------------- check(), report(), histories *)
+  Lemma check_frame st input picks catch : visible (snd (check st input picks catch)) = visible st.
   Proof.
-    intros H. destruct (run_fresh _ _ H) as (_ & _ & Hw & _). rewrite Hw. split.
+    unfold check. destruct picks as [|p r]; [reflexivity|].
+    destruct (forallb (fun p0 => p0 <? length input) (p :: r)); reflexivity.
+  Qed.
+
+  Lemma exec_event_frame st input ev : visible (snd (exec_event st input ev)) = visible st.
+  Proof. destruct ev as [picks catch|]; cbn [exec_event snd]; [apply check_frame|reflexivity]. Qed.
+
+  Lemma exec_history_frame input evs : forall st,
+    visible (after_history st input evs) = visible st
+    /\ Forall (fun r => visible (snd r) = visible st) (fst (exec_history st input evs)).
+  Proof.
+    unfold Sync.after_history.
+    induction evs as [|ev evs IH]; intros st; cbn [Sync.exec_history fst snd]; [split; [reflexivity|constructor]|].
+    destruct (IH (snd (exec_event st input ev))) as [H1 H2]. pose proof (exec_event_frame st input ev) as H0.
+    split.
+    - rewrite H1. exact H0.
+    - constructor; [exact H0|]. eapply Forall_impl; [|exact H2]. cbn beta. intros r Hr. rewrite Hr. exact H0.
+  Qed.
+
+  Lemma after_history_pristine old o input evs : pristine (after_history (construct old o) input evs) old o.
+  Proof. unfold pristine. apply exec_history_frame. Qed.
+
+  (* ---------------------------------------------------------------- the property theorems *)
+  Theorem sync_output_thm st old o input st' :
+    pristine st old o -> blocking old o = false ->
+    run st input = RunDone st' ->
+    store_size (writes st') = length (accepted_from (calls st) input)
+    /\ (forall j, store_get (writes st') j = nth_error (accepted_from (calls st) input) j)
+    /\ w_reader (out st') = match accepted_from (calls st) input with
+                            | [] => option_map (map Some) old
+                            | acc => Some (map Some acc)
+                            end.
+  Proof.
+    intros Hp Hb H. destruct (run_clean _ _ _ input Hp Hb) as (s & Hr & _ & _ & Hw & _ & _ & Ho).
+    rewrite Hr in H. injection H as <-. rewrite Hw, Ho. split; [|split].
     - apply store_size_log0.
     - intros j. rewrite store_get_log. cbn. rewrite Nat.sub_0_r. reflexivity.
+    - rewrite (reader_wappend_clean _ _ _ _ Hb). destruct (accepted_from (calls st) input); reflexivity.
   Qed.
 
   Lemma map_seq_nth_error {A} (g : nat -> option A) (l : list A) : forall a,
@@ -204,64 +466,273 @@ Section SyncProofs.
     - apply IH. intros j Hj. replace (S a + j) with (a + S j) by lia. apply (H (S j)). cbn. lia.
   Qed.
 
-  Theorem store_rows_thm input st' :
-    run fresh input = Some st' -> store_rows (writes st') = map Some (accepted input).
+
+  Theorem store_rows_thm st old o input st' :
+    pristine st old o -> blocking old o = false ->
+    run st input = RunDone st' -> store_rows (writes st') = map Some (accepted_from (calls st) input).
   Proof.
-    intros H. destruct (sync_output_thm _ _ H) as [Hs Hg]. unfold store_rows. rewrite Hs.
+    intros Hp Hb H. destruct (sync_output_thm _ _ _ _ _ Hp Hb H) as (Hs & Hg & _). unfold store_rows. rewrite Hs.
     apply map_seq_nth_error. intros j _. apply Hg.
   Qed.
 
-  Theorem writes_are_appends_thm input st' :
-    run fresh input = Some st' ->
+  Theorem run_defined_thm st old o input :
+    pristine st old o -> blocking old o = false -> exists st', run st input = RunDone st'.
+  Proof. intros Hp Hb. destruct (run_clean _ _ _ input Hp Hb) as (s & Hr & _). exists s. exact Hr. Qed.
+
+  Theorem writes_are_appends_thm st old o input st' :
+    pristine st old o -> blocking old o = false ->
+    run st input = RunDone st' ->
     map fst (writes st') = seq 0 (length (writes st')).
   Proof.
-    intros H. destruct (run_fresh _ _ H) as (_ & _ & Hw & _). rewrite Hw, map_fst_log, log_length. reflexivity.
+    intros Hp Hb H. destruct (run_clean _ _ _ input Hp Hb) as (s & Hr & _ & _ & Hw & _).
+    rewrite Hr in H. injection H as <-. rewrite Hw, map_fst_log, log_length. reflexivity.
   Qed.
 
   (* the state reached after [input] is the state in which the next trace [t] is handled: an accepted trace is written
-     at the first index not yet in the store, and nothing already written is ever written again *)
-  Theorem next_write_is_next_free input st' t d :
-    run fresh input = Some st' -> f (length input) t = Accept d ->
-    writes (step st' (length input) t) = writes st' ++ [(store_size (writes st'), (fst t, d))].
+     at the first index not yet in the file, and nothing already written is ever written again *)
+  Theorem next_write_is_next_free st old o input st' t d :
+    pristine st old o -> blocking old o = false ->
+    run st input = RunDone st' -> f (calls st') t = Accept d ->
+    exists st'', step st' t = Go st''
+    /\ writes st'' = writes st' ++ [(store_size (writes st'), (fst t, d))]
+    /\ w_reader (out st'') = Some (map Some (accepted_from (calls st) input) ++ [Some (fst t, d)]).
   Proof.
-    intros H Hf. destruct (run_fresh _ _ H) as (_ & Hy & Hw & _).
-    unfold step. rewrite Hf. cbn [writes]. rewrite Hy, Hw, store_size_log0.
-    replace (S (length (accepted input)) - 1) with (length (accepted input)) by lia. reflexivity.
-  Qed.
-
-  Lemma loop_app l1 l2 : forall st i, loop st i (l1 ++ l2) = loop (loop st i l1) (i + length l1) l2.
-  Proof.
-    induction l1 as [|t l1 IH]; intros st i; cbn [app loop length].
-    - rewrite Nat.add_0_r. reflexivity.
-    - rewrite IH. replace (S i + length l1) with (i + S (length l1)) by lia. reflexivity.
+    intros Hp Hb H Hf. destruct (run_clean _ _ _ input Hp Hb) as (s & Hr & _ & Hy & Hw & _ & _ & Ho).
+    rewrite Hr in H. injection H as <-.
+    assert (Heff : eff (out s) = map Some (accepted_from (calls st) input)).
+    { rewrite Ho, eff_wappend, (eff_new_clean _ _ _ Hb). reflexivity. }
+    assert (Hlen : synchronized s = length (eff (out s))).
+    { rewrite Hy, Heff, map_length. reflexivity. }
+    unfold step. rewrite Hf.
+    replace (S (synchronized s) - 1) with (length (eff (out s))) by lia.
+    rewrite w_write_append. cbn [snd fst]. eexists. split; [reflexivity|].
+    cbn [writes out w_reader disk]. rewrite Hw, store_size_log0, <- Hy, Hlen, Heff. split; reflexivity.
   Qed.
 
   (* running on l1 ++ [t] is running on l1 and then handling t: intermediate states of a run are final states of
-     runs on prefixes, so the two theorems above speak about every moment of every run *)
-  Theorem run_snoc l1 t st1 :
-    run fresh l1 = Some st1 -> run fresh (l1 ++ [t]) = Some (step st1 (length l1) t).
+     runs on prefixes, so the theorems above speak about every moment of every run *)
+  Theorem run_snoc st l1 t st1 :
+    run st l1 = RunDone st1 ->
+    run st (l1 ++ [t]) = match step st1 t with Go s => RunDone s | Stop s => RunWriterError s end.
   Proof.
-    unfold run. cbn. intros H. injection H as <-. rewrite loop_app. reflexivity.
+    unfold run. destruct (errs st); [discriminate|]. rewrite loop_app.
+    destruct (loop (arm st) l1) as [s|s]; [|discriminate]. intros H. injection H as ->.
+    cbn [loop]. destruct (step st1 t); reflexivity.
   Qed.
 
-  Theorem counters_thm input st' :
-    run fresh input = Some st' ->
-    processed st' = length input /\ synchronized st' = length (accepted input).
-  Proof. intros H. destruct (run_fresh _ _ H) as (Hp & Hy & _). split; assumption. Qed.
+  Theorem counters_thm st old o input st' :
+    pristine st old o -> blocking old o = false ->
+    run st input = RunDone st' ->
+    processed st' = length input /\ synchronized st' = length (accepted_from (calls st) input).
+  Proof.
+    intros Hp Hb H. destruct (run_clean _ _ _ input Hp Hb) as (s & Hr & H1 & H2 & _).
+    rewrite Hr in H. injection H as <-. split; assumption.
+  Qed.
 
-  Theorem counters_nothing_accepted_thm input st' :
+  (* nothing accepted: whatever the output file is, run() completes, nothing is written, the file is not touched *)
+  Theorem counters_nothing_accepted_thm st old o input :
+    pristine st old o ->
     (forall i t d, f i t <> Accept d) ->
-    run fresh input = Some st' ->
-    processed st' = length input /\ synchronized st' = 0 /\ writes st' = [].
+    exists st', run st input = RunDone st'
+    /\ processed st' = length input /\ synchronized st' = 0 /\ writes st' = [] /\ out st' = new_writer old o.
   Proof.
-    intros Hno H. destruct (run_fresh _ _ H) as (Hp & Hy & Hw & _).
-    unfold Sync.accepted in *. rewrite (accepted_from_none _ _ Hno) in *. cbn in *. auto.
+    intros Hp Hno.
+    destruct (run_blocked_none _ _ _ input Hp (accepted_from_none _ _ Hno)) as (s & Hr & H1 & H2 & H3 & _ & _ & H4).
+    exists s. auto.
   Qed.
 
-  Theorem second_run_refused_thm input st' input2 :
-    run fresh input = Some st' -> run st' input2 = None.
+  (* whatever state run() is called in: if it starts the loop (ends normally or by the writer's error), the object is used up *)
+  Theorem second_run_refused_thm st input input2 :
+    match run st input with
+    | RunRefused => True
+    | RunWriterError st' => run st' input2 = RunRefused
+    | RunDone st' => run st' input2 = RunRefused
+    end.
   Proof.
-    intros H. destruct (run_fresh _ _ H) as (_ & _ & _ & He).
-    unfold run. destruct (errs st'); [reflexivity|congruence].
+    unfold run at 1. destruct (errs st) eqn:E; [exact I|].
+    assert (Ha : errs (arm st) <> None) by (cbn; discriminate).
+    pose proof (loop_errs input (arm st) Ha) as H.
+    destruct (loop (arm st) input) as [s|s]; unfold run; destruct (errs s); congruence.
+  Qed.
+
+  (* the complete case analysis of the first run() of an object, after any history of check() / report() calls, over
+     any output file *)
+  Theorem run_after_history_thm old o input evs :
+    let st := after_history (construct old o) input evs in
+    let acc := accepted_from (calls st) input in
+    match run st input with
+    | RunRefused => False
+    | RunWriterError st' =>
+        blocking old o = true /\ acc <> []
+        /\ processed st' = S (rejected_prefix (calls st) input) /\ rejected_prefix (calls st) input < length input
+        /\ synchronized st' = 1
+        /\ disk (out st') = option_map (map Some) old
+    | RunDone st' =>
+        processed st' = length input /\ synchronized st' = length acc
+        /\ ((acc <> [] /\ blocking old o = false /\ w_reader (out st') = Some (map Some acc))
+            \/ (acc = [] /\ out st' = new_writer old o))
+    end.
+  Proof.
+    intros st acc. pose proof (after_history_pristine old o input evs) as Hp. fold st in Hp.
+    destruct (blocking old o) eqn:Hb.
+    - destruct acc as [|a r] eqn:Ea.
+      + destruct (run_blocked_none _ _ _ input Hp Ea) as (s & Hr & H1 & H2 & _ & _ & _ & H4).
+        rewrite Hr. repeat split; try assumption. right. split; [reflexivity|exact H4].
+      + assert (Hne : accepted_from (calls st) input <> []) by (fold acc; rewrite Ea; discriminate).
+        destruct (run_blocked_some _ _ _ input Hp Hb Hne) as (s & Hr & H1 & H2 & _ & _ & _ & H4).
+        rewrite Hr. repeat split; try assumption; try discriminate.
+        apply rejected_prefix_lt. exact Hne.
+    - destruct (run_clean _ _ _ input Hp Hb) as (s & Hr & H1 & H2 & _ & _ & _ & Ho).
+      rewrite Hr. fold acc in H2, Ho. repeat split; try assumption.
+      destruct acc as [|a r] eqn:Ea.
+      + right. split; [reflexivity|exact Ho].
+      + left. split; [discriminate|]. split; [reflexivity|]. rewrite Ho.
+        rewrite (reader_wappend_clean _ _ _ _ Hb). reflexivity.
   Qed.
 End SyncProofs.
+
+Arguments pristine {M D} st old o.
+
+(* ==================================================================== the call number only matters to f *)
+Section Shift.
+  Variables (M X D : Type).
+  Variables f g : nat -> M * X -> outcome D.
+
+  Definition flow_visible (fl : flow M D) :=
+    match fl with Go s => (true, visible s) | Stop s => (false, visible s) end.
+  Definition run_visible (r : run_result M D) :=
+    match r with
+    | RunRefused => (0, None)
+    | RunWriterError s => (1, Some (visible s))
+    | RunDone s => (2, Some (visible s))
+    end.
+
+  Lemma loop_shift input : forall (st st0 : sstate M D),
+    visible st = visible st0 ->
+    (forall i t, f (calls st + i) t = g (calls st0 + i) t) ->
+    flow_visible (loop M X D f st input) = flow_visible (loop M X D g st0 input).
+  Proof.
+    induction input as [|t input IH]; intros st st0 Hv Hfg; cbn [loop].
+    - cbn. rewrite Hv. reflexivity.
+    - pose proof (Hfg 0 t) as H0. rewrite !Nat.add_0_r in H0.
+      destruct st as [p y w e c o], st0 as [p0 y0 w0 e0 c0 o0]. unfold visible in Hv. cbn in Hv, H0, Hfg.
+      injection Hv as -> -> -> -> ->.
+      unfold step. cbn [calls processed synchronized writes errs out]. rewrite H0.
+      assert (Hfg' : forall i t0, f (S c + i) t0 = g (S c0 + i) t0).
+      { intros i t0. specialize (Hfg (S i) t0). rewrite !Nat.add_succ_r in Hfg. exact Hfg. }
+      destruct (g c0 t) as [d| |].
+      + destruct (snd (w_write o0 (S y0 - 1) (fst t, d))).
+        * apply IH; [reflexivity|exact Hfg'].
+        * reflexivity.
+      + apply IH; [reflexivity|exact Hfg'].
+      + apply IH; [reflexivity|exact Hfg'].
+  Qed.
+
+  Lemma run_shift input (st st0 : sstate M D) :
+    visible st = visible st0 ->
+    (forall i t, f (calls st + i) t = g (calls st0 + i) t) ->
+    run_visible (run M X D f st input) = run_visible (run M X D g st0 input).
+  Proof.
+    intros Hv Hfg. unfold run.
+    assert (He : errs st = errs st0) by (unfold visible in Hv; congruence).
+    rewrite <- He. destruct (errs st); [reflexivity|].
+    assert (Hva : visible (arm st) = visible (arm st0)).
+    { unfold visible in *. cbn [arm processed synchronized writes errs out]. congruence. }
+    pose proof (loop_shift input (arm st) (arm st0) Hva Hfg) as H.
+    destruct (loop M X D f (arm st) input), (loop M X D g (arm st0) input); cbn in H |- *; congruence.
+  Qed.
+End Shift.
+
+Arguments flow_visible {M D} fl.
+Arguments run_visible {M D} r.
+
+Section History.
+  Variables (M X D : Type).
+  Variable f : nat -> M * X -> outcome D.
+
+  Theorem check_frame_thm (st : sstate M D) input picks catch :
+    let st' := snd (check M X D f st input picks catch) in
+    processed st' = processed st /\ synchronized st' = synchronized st /\ writes st' = writes st
+    /\ errs st' = errs st /\ out st' = out st.
+  Proof.
+    cbn zeta. pose proof (check_frame M X D f st input picks catch) as H. unfold visible in H.
+    injection H as -> -> -> -> ->. auto.
+  Qed.
+
+  Theorem history_frame_thm (st : sstate M D) input evs :
+    visible (after_history M X D f st input evs) = visible st
+    /\ Forall (fun r => visible (snd r) = visible st) (fst (exec_history M X D f st input evs)).
+  Proof. apply exec_history_frame. Qed.
+
+  (* run() after a history = run() of a new object, for the function as it will behave from its next call on *)
+  Theorem run_after_history_as_fresh old o input evs :
+    let st := after_history M X D f (construct old o) input evs in
+    run_visible (run M X D f st input)
+    = run_visible (run M X D (fun i => f (calls st + i)) (construct old o) input).
+  Proof.
+    cbn zeta. apply run_shift.
+    - apply exec_history_frame.
+    - intros i t. reflexivity.
+  Qed.
+
+  (* a function that does not depend on the call number: the history is invisible altogether *)
+  Theorem run_after_history_stateless old o input evs :
+    (forall i j t, f i t = f j t) ->
+    run_visible (run M X D f (after_history M X D f (construct old o) input evs) input)
+    = run_visible (run M X D f (construct old o) input).
+  Proof.
+    intros Hst. apply run_shift.
+    - apply exec_history_frame.
+    - intros i t. apply Hst.
+  Qed.
+
+  (* ---- the theorems about a pristine object, instantiated on the object reached by any pre-run history *)
+  Notation H old o input evs := (after_history M X D f (construct old o) input evs).
+
+  Theorem sync_output_hist old o input evs st' :
+    blocking old o = false ->
+    run M X D f (H old o input evs) input = RunDone st' ->
+    store_size (writes st') = length (accepted_from M X D f (calls (H old o input evs)) input)
+    /\ (forall j, store_get (writes st') j = nth_error (accepted_from M X D f (calls (H old o input evs)) input) j)
+    /\ w_reader (out st') = match accepted_from M X D f (calls (H old o input evs)) input with
+                            | [] => option_map (map Some) old
+                            | acc => Some (map Some acc)
+                            end.
+  Proof. intros Hb. apply sync_output_thm with (o := o); [apply after_history_pristine|exact Hb]. Qed.
+
+  Theorem store_rows_hist old o input evs st' :
+    blocking old o = false ->
+    run M X D f (H old o input evs) input = RunDone st' ->
+    store_rows (writes st') = map Some (accepted_from M X D f (calls (H old o input evs)) input).
+  Proof. intros Hb. apply store_rows_thm with (old := old) (o := o); [apply after_history_pristine|exact Hb]. Qed.
+
+  Theorem run_defined_hist old o input evs :
+    blocking old o = false -> exists st', run M X D f (H old o input evs) input = RunDone st'.
+  Proof. intros Hb. apply run_defined_thm with (old := old) (o := o); [apply after_history_pristine|exact Hb]. Qed.
+
+  Theorem writes_are_appends_hist old o input evs st' :
+    blocking old o = false ->
+    run M X D f (H old o input evs) input = RunDone st' ->
+    map fst (writes st') = seq 0 (length (writes st')).
+  Proof. intros Hb. apply writes_are_appends_thm with (old := old) (o := o); [apply after_history_pristine|exact Hb]. Qed.
+
+  Theorem next_write_hist old o input evs st' t d :
+    blocking old o = false ->
+    run M X D f (H old o input evs) input = RunDone st' -> f (calls st') t = Accept d ->
+    exists st'', step M X D f st' t = Go st''
+    /\ writes st'' = writes st' ++ [(store_size (writes st'), (fst t, d))]
+    /\ w_reader (out st'') = Some (map Some (accepted_from M X D f (calls (H old o input evs)) input) ++ [Some (fst t, d)]).
+  Proof. intros Hb. apply next_write_is_next_free with (old := old) (o := o); [apply after_history_pristine|exact Hb]. Qed.
+
+  Theorem counters_hist old o input evs st' :
+    blocking old o = false ->
+    run M X D f (H old o input evs) input = RunDone st' ->
+    processed st' = length input /\ synchronized st' = length (accepted_from M X D f (calls (H old o input evs)) input).
+  Proof. intros Hb. apply counters_thm with (old := old) (o := o); [apply after_history_pristine|exact Hb]. Qed.
+
+  Theorem counters_nothing_accepted_hist old o input evs :
+    (forall i t d, f i t <> Accept d) ->
+    exists st', run M X D f (H old o input evs) input = RunDone st'
+    /\ processed st' = length input /\ synchronized st' = 0 /\ writes st' = [] /\ out st' = new_writer old o.
+  Proof. apply counters_nothing_accepted_thm. apply after_history_pristine. Qed.
+End History.
